@@ -143,7 +143,8 @@ func vfRunSR(t *testing.T, sc *vfSRScript, out *vfWriter) {
 			out.Emit(vfM{"a": "bind", "s": st.S, "rate": st.Rate})
 		case "unbind":
 			if b := streams[st.S]; b != nil {
-				ic.UnbindLocalStream(b.info)
+				unb := *b.info // an equal description at another address
+				ic.UnbindLocalStream(&unb)
 				delete(streams, st.S)
 			}
 			out.Emit(vfM{"a": "unbind", "s": st.S})
